@@ -249,10 +249,10 @@ func (s *State) withRewards(ad ledgercore.AccountData) ledgercore.AccountData {
 
 // totals recomputes the account totals from the accounts (independent of StateDelta.Totals).
 type refTotals struct {
-	Online, Offline, NotPart          uint64 // money
-	OnlineRU, OfflineRU, NotPartRU    uint64 // reward units
-	RewardsLevel                      uint64
-	All                               uint64 // all money incl. pending rewards at this level
+	Online, Offline, NotPart       uint64 // money
+	OnlineRU, OfflineRU, NotPartRU uint64 // reward units
+	RewardsLevel                   uint64
+	All                            uint64 // all money incl. pending rewards at this level
 }
 
 func (s *State) totals() refTotals {
